@@ -336,7 +336,12 @@ def zhex(b):
     """bytes -> Gallina term of type list Z (decoded in Coq from one number)"""
     if len(b) == 0:
         return '(hexbytes 0 0)'
-    return '(hexbytes %d 0x%s)' % (len(b), bytes(b).hex())
+    b = bytes(b)
+    if len(b) <= 64:
+        return '(hexbytes %d 0x%s)' % (len(b), b.hex())
+    # decoding one number is quadratic in its length: long data is written as a concatenation of 64-byte pieces
+    parts = ['(hexbytes %d 0x%s)' % (len(b[k:k + 64]), b[k:k + 64].hex()) for k in range(0, len(b), 64)]
+    return '(List.concat [%s])' % '; '.join(parts)
 
 
 # ------------------------------------------------------------------ known findings
